@@ -149,15 +149,16 @@ def fam_bind_ctor(r, two):
 
 
 def fam_bind_operator(r, two):
+    """the result type does not depend on T and the result is only printed: nothing but the binding of T can reject `bad`"""
     a, b = two_types(r)
     op = r.choice(['plus', 'minus', 'mal'])
-    d = structs(two) + ('Die %sgenerische Funktion addiere mit den Parametern l und r vom Typ T-Vektor2 und T-Vektor2, gibt einen T-Vektor2 zurück, macht:\n'
-                        '\tGib Vektor2((vx von l), (vy von r)) zurück.\nUnd überlädt den "%s" Operator.\n\n' % ('öffentliche ' if two else '', op))
+    d = structs(two) + ('Die %sgenerische Funktion addiere mit den Parametern l und r vom Typ T-Vektor2 und T-Vektor2, gibt eine Zahl zurück, macht:\n'
+                        '\tGib 1 zurück.\nUnd überlädt den "%s" Operator.\n\n' % ('öffentliche ' if two else '', op))
     pre = 'Der %s-Vektor2 v ist Vektor2(%s, %s).\nDer %s-Vektor2 w ist Vektor2(%s, %s).\nDer %s-Vektor2 u ist Vektor2(%s, %s).\n' % (
         a, val(r, a), val(r, a), a, val(r, a), val(r, a), b, val(r, b), val(r, b))
-    ok = pre + 'Der %s-Vektor2 s ist v %s w.\nSchreibe "ok" auf eine Zeile.\n' % (a, op)
-    bad = pre + 'Der %s-Vektor2 s ist v %s u.\n' % (a, op)
-    return dict(construct='generic operator %s(T-Vektor2, T-Vektor2) applied to (%s-Vektor2, %s-Vektor2)' % (op, a, b), ok=split(two, d, ok), bad=split(two, d, bad), expect='ok\n')
+    ok = pre + 'Schreibe (v %s w) auf eine Zeile.\n' % op
+    bad = pre + 'Schreibe (v %s u) auf eine Zeile.\n' % op
+    return dict(construct='generic operator %s(T-Vektor2, T-Vektor2) applied to (%s-Vektor2, %s-Vektor2)' % (op, a, b), ok=split(two, d, ok), bad=split(two, d, bad), expect='1\n')
 
 
 def fam_bind_result(r, two):
